@@ -13,7 +13,7 @@ NEEDS_MODEL = True
 LEVEL = "exploration"
 N = {"quick": 960, "thorough": 30000}
 STRATA = ["S1", "S1", "S2", "S2", "S3", "S1", "S2", "S3", "S4", "S5", "S6", "S8", "S6", "S8", "S9",
-          "S9"]
+          "S9", "S10", "S10"]
 
 
 def _solve_assignment(e, spec, env):
@@ -163,7 +163,7 @@ def finalize(results, counters, tier, seed):
     inc = []
     if counters.get("status", {}).get("ok", 0) < N[tier] // 4:
         inc.append("too few executed cases: %r" % counters.get("status"))
-    miss = [s for s in ("S1", "S2", "S3", "S6", "S8", "S9", "two-followers", "loop-input-rank", "partitioned", "halo",
+    miss = [s for s in ("S1", "S2", "S3", "S6", "S8", "S9", "S10", "two-followers", "loop-input-rank", "partitioned", "halo",
                         "channel", "filter-partitioned", "extra-output-operand",
                         "both-dims-partitioned")
             if counters.get("strata_ok", {}).get(s, 0) == 0]
@@ -174,7 +174,7 @@ def finalize(results, counters, tier, seed):
     cov = {"rule": "1-D/2-D accesses a*q+b*s (a in 1,2,4; b in 1,2,-1), subsampling a*q, optional "
                    "channel rank; loop order per index equation (output var, filter var) or (output "
                    "var, input rank); optional extra operand on the output's index variables; rank names "
-                   "varied; strata S6 filter rank partitioned, S8 extra operand, S1 unpartitioned, S2 one-level split + follow, S3 "
+                   "varied; strata S6 filter rank partitioned, S8 extra operand, S9 two affine operands, S10 affine output (transposed convolution), S1 unpartitioned, S2 one-level split + follow, S3 "
                    "multi-level subsampling, S4 multi-level with halo (known finding KF-4), S5 "
                    "coefficient 3/5/6 over the input rank (KF-2); consistent extents; non-trivial = "
                    "accepted, all loops iterated, >=1 update"}
